@@ -1,0 +1,40 @@
+//go:build verif
+
+// Contracts for package geom (comment-only; compiled to nothing).
+// The root finder is specified against the truncated polynomial: a leading coefficient whose absolute value is below
+// epsilon3 is treated as absent, as the code documents. Floats are mathematical reals (assumption A1).
+
+package geom
+
+//@ spec tiny(x float64) bool = x < epsilon3 && x > 0.0 - epsilon3
+
+// only freshly allocated arrays are written
+//@ spec freshOnly() bool = forall t []float64, j int :: old(allocatedArrId(arr(t))) ==> t[j] == old(t[j])
+
+//@ func aeq0
+//@   ensures result <==> tiny(x)
+//@   modifies nothing
+
+// linear: a*x + b with a = coeff[1], b = coeff[0]
+//@ func solve1
+//@   requires len(coeff) >= 2
+//@   modifies Elems[float64], alloc
+//@   ensures[frame] forall t []float64, j int :: old(allocatedArrId(arr(t))) ==> t[j] == old(t[j])
+//@   ensures[degenerate] tiny(old(coeff[1])) && tiny(old(coeff[0])) ==> result == nil
+//@   ensures[none] tiny(old(coeff[1])) && !tiny(old(coeff[0])) ==> result != nil && len(result) == 0
+//@   ensures[root] !tiny(old(coeff[1])) ==> len(result) == 1 && old(coeff[1]) * result[0] + old(coeff[0]) == 0.0
+//@   ensures[complete] !tiny(old(coeff[1])) ==> (forall x float64 :: old(coeff[1]) * x + old(coeff[0]) == 0.0 ==> x == result[0])
+
+// quadratic: a*x^2 + b*x + c with a = coeff[2]
+//@ func solve2
+//@   requires len(coeff) >= 3
+//@   modifies Elems[float64], alloc
+//@   ensures[frame] forall t []float64, j int :: old(allocatedArrId(arr(t))) ==> t[j] == old(t[j])
+//@   ensures[count] !tiny(old(coeff[2])) ==> result != nil && len(result) <= 2
+//@   ensures[root0] !tiny(old(coeff[2])) && len(result) >= 1 ==> old(coeff[2]) * result[0] * result[0] + old(coeff[1]) * result[0] + old(coeff[0]) == 0.0
+//@   ensures[root1] !tiny(old(coeff[2])) && len(result) >= 2 ==> old(coeff[2]) * result[1] * result[1] + old(coeff[1]) * result[1] + old(coeff[0]) == 0.0
+//@   ensures[complete] !tiny(old(coeff[2])) ==> (forall x float64 :: old(coeff[2]) * x * x + old(coeff[1]) * x + old(coeff[0]) == 0.0 ==>
+//@       (len(result) >= 1 && x == result[0]) || (len(result) >= 2 && x == result[1]))
+//@   ensures[distinct] !tiny(old(coeff[2])) && len(result) == 2 ==> result[0] != result[1]
+//@   ensures[linear] tiny(old(coeff[2])) && !tiny(old(coeff[1])) ==> len(result) == 1 && old(coeff[1]) * result[0] + old(coeff[0]) == 0.0
+//@   ensures[degenerate] tiny(old(coeff[2])) && tiny(old(coeff[1])) && tiny(old(coeff[0])) ==> result == nil
